@@ -6,19 +6,78 @@
 //! file offset with the original handle (that is what `dup(2)` does).
 #![allow(dead_code, missing_docs, static_mut_refs)]
 
-use std::io::{Error as IoError, ErrorKind, Read, Seek, SeekFrom, Write};
+pub use std::io::SeekFrom;
 use std::path::Path;
 
-/// capacity in bytes of a model data file / of the index file
+/// Model of `std::io::Error`: no heap, no `dyn Error` payload (the recursive drop glue of the real type makes
+/// every error path explode under bounded model checking).
+#[derive(Debug, Clone, Copy, PartialEq, Eq)]
+pub enum IoError {
+    NotFound,
+    UnexpectedEof,
+    Other,
+}
+
+pub enum ErrorKind {
+    NotFound,
+    UnexpectedEof,
+    Other,
+}
+
+impl IoError {
+    pub fn other<T>(_e: T) -> IoError {
+        IoError::Other
+    }
+    pub fn from(k: ErrorKind) -> IoError {
+        match k {
+            ErrorKind::NotFound => IoError::NotFound,
+            ErrorKind::UnexpectedEof => IoError::UnexpectedEof,
+            ErrorKind::Other => IoError::Other,
+        }
+    }
+}
+
+impl std::fmt::Display for IoError {
+    fn fmt(&self, _f: &mut std::fmt::Formatter<'_>) -> std::fmt::Result {
+        Ok(())
+    }
+}
+
+impl std::error::Error for IoError {}
+
+/// the three `std::io` traits, with the model error type
+pub trait Read {
+    fn read_exact(&mut self, buf: &mut [u8]) -> Result<(), IoError>;
+}
+
+pub trait Write {
+    fn write_all(&mut self, buf: &[u8]) -> Result<(), IoError>;
+}
+
+pub trait Seek {
+    fn seek(&mut self, pos: SeekFrom) -> Result<u64, IoError>;
+    fn rewind(&mut self) -> Result<(), IoError> {
+        self.seek(SeekFrom::Start(0)).map(|_| ())
+    }
+}
+
+/// capacity in bytes of a model data file / of the index file (5 entries)
 pub const DATA_CAP: usize = 8;
-pub const INDEX_CAP: usize = 72;
+pub const INDEX_CAP: usize = 60;
 /// data file ids 0..NDATA are representable
 pub const NDATA: usize = 4;
-pub const NOFD: usize = 12;
+pub const NOFD: usize = 16;
 pub const INDEX_INODE: usize = NDATA;
 
 #[derive(Clone, Copy)]
-pub struct Inode {
+pub struct DataFile {
+    pub exists: bool,
+    pub len: usize,
+    pub data: [u8; DATA_CAP],
+}
+
+#[derive(Clone, Copy)]
+pub struct IndexFile {
     pub exists: bool,
     pub len: usize,
     pub data: [u8; INDEX_CAP],
@@ -26,14 +85,16 @@ pub struct Inode {
 
 #[derive(Clone, Copy)]
 pub struct Ofd {
-    pub used: bool,
     pub inode: usize,
     pub pos: u64,
 }
 
 pub struct Fs {
-    pub inodes: [Inode; NDATA + 1],
+    pub files: [DataFile; NDATA],
+    pub index: IndexFile,
     pub ofds: [Ofd; NOFD],
+    /// open-file descriptions are handed out in order and never reused before `close_all`
+    pub next_ofd: usize,
     /// file id passed to the last `helper::file_name` call and not yet consumed by an open/remove
     pub pending_name: Option<u32>,
     /// number of `sync_all` calls (observability for harnesses)
@@ -41,8 +102,10 @@ pub struct Fs {
 }
 
 pub static mut FS: Fs = Fs {
-    inodes: [Inode { exists: false, len: 0, data: [0; INDEX_CAP] }; NDATA + 1],
-    ofds: [Ofd { used: false, inode: 0, pos: 0 }; NOFD],
+    files: [DataFile { exists: false, len: 0, data: [0; DATA_CAP] }; NDATA],
+    index: IndexFile { exists: false, len: 0, data: [0; INDEX_CAP] },
+    ofds: [Ofd { inode: 0, pos: 0 }; NOFD],
+    next_ofd: 0,
     pending_name: None,
     syncs: 0,
 };
@@ -51,27 +114,51 @@ fn cap_of(inode: usize) -> usize {
     if inode == INDEX_INODE { INDEX_CAP } else { DATA_CAP }
 }
 
+fn f_exists(inode: usize) -> bool {
+    unsafe { if inode == INDEX_INODE { FS.index.exists } else { FS.files[inode].exists } }
+}
+
+fn f_set_exists(inode: usize, v: bool) {
+    unsafe {
+        if inode == INDEX_INODE {
+            FS.index.exists = v
+        } else {
+            FS.files[inode].exists = v
+        }
+    }
+}
+
+fn f_len(inode: usize) -> usize {
+    unsafe { if inode == INDEX_INODE { FS.index.len } else { FS.files[inode].len } }
+}
+
+fn f_set_len(inode: usize, l: usize) {
+    unsafe {
+        if inode == INDEX_INODE {
+            FS.index.len = l
+        } else {
+            FS.files[inode].len = l
+        }
+    }
+}
+
+fn f_get(inode: usize, at: usize) -> u8 {
+    unsafe { if inode == INDEX_INODE { FS.index.data[at] } else { FS.files[inode].data[at] } }
+}
+
+fn f_put(inode: usize, at: usize, b: u8) {
+    unsafe {
+        if inode == INDEX_INODE {
+            FS.index.data[at] = b
+        } else {
+            FS.files[inode].data[at] = b
+        }
+    }
+}
+
 /// control interface for harnesses
 pub mod ctl {
     use super::*;
-
-    pub fn reset() {
-        unsafe {
-            let mut i = 0;
-            while i < NDATA + 1 {
-                FS.inodes[i].exists = false;
-                FS.inodes[i].len = 0;
-                i += 1;
-            }
-            let mut j = 0;
-            while j < NOFD {
-                FS.ofds[j].used = false;
-                j += 1;
-            }
-            FS.pending_name = None;
-            FS.syncs = 0;
-        }
-    }
 
     /// the file-name side channel: `helper::file_name` is stubbed by harnesses to call this
     pub fn name_file(id: u32) {
@@ -79,53 +166,43 @@ pub mod ctl {
     }
 
     pub fn exists(inode: usize) -> bool {
-        unsafe { FS.inodes[inode].exists }
+        f_exists(inode)
     }
 
     pub fn len(inode: usize) -> usize {
-        unsafe { FS.inodes[inode].len }
+        f_len(inode)
     }
 
     pub fn byte(inode: usize, at: usize) -> u8 {
-        unsafe { FS.inodes[inode].data[at] }
+        f_get(inode, at)
     }
 
     pub fn create(inode: usize) {
-        unsafe {
-            FS.inodes[inode].exists = true;
-            FS.inodes[inode].len = 0;
-        }
+        f_set_exists(inode, true);
+        f_set_len(inode, 0);
     }
 
     pub fn remove(inode: usize) {
-        unsafe { FS.inodes[inode].exists = false }
+        f_set_exists(inode, false);
     }
 
     pub fn push(inode: usize, b: u8) {
-        unsafe {
-            let l = FS.inodes[inode].len;
-            FS.inodes[inode].data[l] = b;
-            FS.inodes[inode].len = l + 1;
-        }
+        let l = f_len(inode);
+        f_put(inode, l, b);
+        f_set_len(inode, l + 1);
     }
 
     /// cut a file to `len` bytes (crash model)
     pub fn cut(inode: usize, len: usize) {
-        unsafe {
-            if len < FS.inodes[inode].len {
-                FS.inodes[inode].len = len;
-            }
+        if len < f_len(inode) {
+            f_set_len(inode, len);
         }
     }
 
     /// forget every open handle (process death)
     pub fn close_all() {
         unsafe {
-            let mut j = 0;
-            while j < NOFD {
-                FS.ofds[j].used = false;
-                j += 1;
-            }
+            FS.next_ofd = 0;
             FS.pending_name = None;
         }
     }
@@ -141,18 +218,13 @@ pub struct File {
 
 fn alloc_ofd(inode: usize) -> Result<usize, IoError> {
     unsafe {
-        let mut j = 0;
-        while j < NOFD {
-            if !FS.ofds[j].used {
-                FS.ofds[j] = Ofd { used: true, inode, pos: 0 };
-                return Ok(j);
-            }
-            j += 1;
-        }
+        // model capacity: outside the bound of the harness when exceeded
+        kani::assume(FS.next_ofd < NOFD);
+        let j = FS.next_ofd;
+        FS.ofds[j] = Ofd { inode, pos: 0 };
+        FS.next_ofd = j + 1;
+        Ok(j)
     }
-    // model capacity exceeded: outside the bound of the harness
-    kani::assume(false);
-    Err(IoError::from(ErrorKind::Other))
 }
 
 impl File {
@@ -161,12 +233,12 @@ impl File {
             let ino = FS.ofds[self.ofd].inode;
             let size = size as usize;
             kani::assume(size <= cap_of(ino));
-            let mut l = FS.inodes[ino].len;
+            let mut l = f_len(ino);
             while l < size {
-                FS.inodes[ino].data[l] = 0;
+                f_put(ino, l, 0);
                 l += 1;
             }
-            FS.inodes[ino].len = size;
+            f_set_len(ino, size);
         }
         Ok(())
     }
@@ -184,15 +256,32 @@ impl File {
     fn do_read_exact(&self, buf: &mut [u8]) -> Result<(), IoError> {
         unsafe {
             let ino = FS.ofds[self.ofd].inode;
-            let pos = FS.ofds[self.ofd].pos as usize;
             let n = buf.len();
-            if FS.ofds[self.ofd].pos > FS.inodes[ino].len as u64 || pos + n > FS.inodes[ino].len {
+            let len = f_len(ino);
+            if FS.ofds[self.ofd].pos > len as u64 || FS.ofds[self.ofd].pos as usize + n > len {
                 return Err(IoError::from(ErrorKind::UnexpectedEof));
             }
-            let mut i = 0;
-            while i < n {
-                buf[i] = FS.inodes[ino].data[pos + i];
-                i += 1;
+            let pos = FS.ofds[self.ofd].pos as usize;
+            if n == 12 {
+                // index entry: unrolled so that the model adds no 12-iteration loop
+                buf[0] = f_get(ino, pos);
+                buf[1] = f_get(ino, pos + 1);
+                buf[2] = f_get(ino, pos + 2);
+                buf[3] = f_get(ino, pos + 3);
+                buf[4] = f_get(ino, pos + 4);
+                buf[5] = f_get(ino, pos + 5);
+                buf[6] = f_get(ino, pos + 6);
+                buf[7] = f_get(ino, pos + 7);
+                buf[8] = f_get(ino, pos + 8);
+                buf[9] = f_get(ino, pos + 9);
+                buf[10] = f_get(ino, pos + 10);
+                buf[11] = f_get(ino, pos + 11);
+            } else {
+                let mut i = 0;
+                while i < n {
+                    buf[i] = f_get(ino, pos + i);
+                    i += 1;
+                }
             }
             FS.ofds[self.ofd].pos = (pos + n) as u64;
         }
@@ -207,18 +296,33 @@ impl File {
             let pos = FS.ofds[self.ofd].pos as usize;
             kani::assume(pos + n <= cap_of(ino));
             // writing beyond the end leaves a zero-filled hole
-            let mut l = FS.inodes[ino].len;
+            let mut l = f_len(ino);
             while l < pos {
-                FS.inodes[ino].data[l] = 0;
+                f_put(ino, l, 0);
                 l += 1;
             }
-            let mut i = 0;
-            while i < n {
-                FS.inodes[ino].data[pos + i] = buf[i];
-                i += 1;
+            if n == 12 {
+                f_put(ino, pos, buf[0]);
+                f_put(ino, pos + 1, buf[1]);
+                f_put(ino, pos + 2, buf[2]);
+                f_put(ino, pos + 3, buf[3]);
+                f_put(ino, pos + 4, buf[4]);
+                f_put(ino, pos + 5, buf[5]);
+                f_put(ino, pos + 6, buf[6]);
+                f_put(ino, pos + 7, buf[7]);
+                f_put(ino, pos + 8, buf[8]);
+                f_put(ino, pos + 9, buf[9]);
+                f_put(ino, pos + 10, buf[10]);
+                f_put(ino, pos + 11, buf[11]);
+            } else {
+                let mut i = 0;
+                while i < n {
+                    f_put(ino, pos + i, buf[i]);
+                    i += 1;
+                }
             }
-            if pos + n > FS.inodes[ino].len {
-                FS.inodes[ino].len = pos + n;
+            if pos + n > f_len(ino) {
+                f_set_len(ino, pos + n);
             }
             FS.ofds[self.ofd].pos = (pos + n) as u64;
         }
@@ -230,7 +334,7 @@ impl File {
             let ino = FS.ofds[self.ofd].inode;
             let np = match to {
                 SeekFrom::Start(x) => x,
-                SeekFrom::End(d) => (FS.inodes[ino].len as i64 + d) as u64,
+                SeekFrom::End(d) => (f_len(ino) as i64 + d) as u64,
                 SeekFrom::Current(d) => (FS.ofds[self.ofd].pos as i64 + d) as u64,
             };
             FS.ofds[self.ofd].pos = np;
@@ -240,41 +344,26 @@ impl File {
 }
 
 impl Read for File {
-    fn read(&mut self, buf: &mut [u8]) -> Result<usize, IoError> {
-        self.do_read_exact(buf).map(|_| buf.len())
-    }
     fn read_exact(&mut self, buf: &mut [u8]) -> Result<(), IoError> {
         self.do_read_exact(buf)
     }
 }
 
 impl Read for &File {
-    fn read(&mut self, buf: &mut [u8]) -> Result<usize, IoError> {
-        self.do_read_exact(buf).map(|_| buf.len())
-    }
     fn read_exact(&mut self, buf: &mut [u8]) -> Result<(), IoError> {
         self.do_read_exact(buf)
     }
 }
 
 impl Write for File {
-    fn write(&mut self, buf: &[u8]) -> Result<usize, IoError> {
-        self.do_write_all(buf).map(|_| buf.len())
-    }
     fn write_all(&mut self, buf: &[u8]) -> Result<(), IoError> {
         self.do_write_all(buf)
-    }
-    fn flush(&mut self) -> Result<(), IoError> {
-        Ok(())
     }
 }
 
 impl Seek for File {
     fn seek(&mut self, pos: SeekFrom) -> Result<u64, IoError> {
         self.do_seek(pos)
-    }
-    fn rewind(&mut self) -> Result<(), IoError> {
-        self.do_seek(SeekFrom::Start(0)).map(|_| ())
     }
 }
 
@@ -324,18 +413,16 @@ impl OpenOptions {
                 None => INDEX_INODE,
             }
         };
-        unsafe {
-            if !FS.inodes[inode].exists {
-                if self.create {
-                    FS.inodes[inode].exists = true;
-                    FS.inodes[inode].len = 0;
-                } else {
-                    return Err(IoError::from(ErrorKind::NotFound));
-                }
+        if !f_exists(inode) {
+            if self.create {
+                f_set_exists(inode, true);
+                f_set_len(inode, 0);
+            } else {
+                return Err(IoError::from(ErrorKind::NotFound));
             }
-            if self.truncate {
-                FS.inodes[inode].len = 0;
-            }
+        }
+        if self.truncate {
+            f_set_len(inode, 0);
         }
         let ofd = alloc_ofd(inode)?;
         Ok(File { ofd })
@@ -351,10 +438,10 @@ pub fn remove_file<P: AsRef<Path>>(_p: P) -> Result<(), IoError> {
         match FS.pending_name.take() {
             Some(id) => {
                 kani::assume((id as usize) < NDATA);
-                if !FS.inodes[id as usize].exists {
+                if !f_exists(id as usize) {
                     return Err(IoError::from(ErrorKind::NotFound));
                 }
-                FS.inodes[id as usize].exists = false;
+                f_set_exists(id as usize, false);
                 Ok(())
             }
             None => Err(IoError::from(ErrorKind::NotFound)),
